@@ -26,7 +26,7 @@ LEVEL = "proof"
 
 RULE = (
     "cases = call sequences of solve() (up to 8 calls, at least 2 more calls after the first StopIteration/TimeoutError) on solver problems "
-    "(documented + generated constraints, settings grid as in C01) with timeout_seconds in {None, 2, 3} under a controlled monotone clock "
+    "(documented + generated constraints, settings grid as in C01) with timeout_seconds in {None, 0, 2, 3} under a controlled monotone clock "
     "(advancing 1 s every 1/3/7 readings) or 1 s of real time; evaluations = solve() calls observed; non-trivial = distinct call sequences "
     "(problem, outcome sequence) that contain at least one tree and one terminal outcome, or a timeout"
 )
@@ -194,7 +194,11 @@ def make_problems(ctx: Ctx, n: int):
         pb["calls_after_end"] = 2
         pb["trace"] = True
         r = ctx.rng.random()
-        if r < 0.35:
+        if r < 0.07:
+            # a timeout of 0 seconds is a configured timeout (trees until a full second has passed)
+            pb["timeout"] = 0
+            pb["fake_clock"] = {"start": 1000, "every": ctx.rng.choice([3, 7, 20]), "step": 1}
+        elif r < 0.35:
             pb["timeout"] = None
         elif r < 0.85:
             pb["timeout"] = ctx.rng.choice([2, 3])
